@@ -25,7 +25,7 @@ def oracle (req out : Sexp) : String :=
           | v :: vs =>
             -- several violations in one history: report one of a class that is not a
             -- listed finding first, so that a listed one never hides a new one
-            let listed : List Viol28 := [.replicaSyncIgnoredMasterDown, .replicaUpWithoutProbeMasterDown]
+            let listed : List Viol28 := [.replicaSyncIgnoredMasterDown]
             match (v :: vs).find? (fun x => !listed.contains x) with
             | some x => "viol " ++ x.name
             | none => "viol " ++ v.name
